@@ -69,10 +69,9 @@ func verifyFunc(L *Loaded, db *ContractDB, fn *ssa.Function, fc *FuncContract) *
 		for _, r := range fc.Requires {
 			x.assume(st, x.evalBool(st, r.SX, env))
 		}
-		for _, a := range fc.Assume {
-			x.assume(st, x.evalBool(st, a.SX, env))
-			x.assum[fmt.Sprintf("%s: assumed %s: %s", key, a.Name, a.SX.String())] = true
-		}
+		st.focused = map[int]bool{}
+		st.callRes = map[string][]Val{}
+		x.applyFocus(st)
 		x.emitCover(st, key+"/cover:requires-satisfiable", fc.Src)
 		// syntactic frame check
 		x.checkModifies(st, fn, fc, env)
@@ -215,6 +214,7 @@ func (x *Exec) atReturn(st *State, res []Val) {
 		}
 	}
 	key := x.funcKeyOf(x.fn)
+	// a path that returns before a focus condition became evaluable is checked unconditionally (stronger)
 	for _, e := range x.fc.Ensures {
 		t := x.evalBool(st, e.SX, env)
 		x.emit(st, "post", key+"/ensures:"+e.Name, e, t)
